@@ -46,21 +46,33 @@ def main():
                 print("/repo is not clean, stopping")
                 return 2
             rc, o = sh(["git", "apply", "--check", patch], "/repo")
-            if rc != 0:
-                tally["stale"] += 1
-                print(f"stale        {c} {f['property']} (reverse patch no longer applies)")
-                continue
+            three_way = rc != 0
             try:
-                sh(["git", "apply", patch], "/repo")
+                if three_way:
+                    # later repairs rewrote neighbouring lines: let git merge the reversal three-way; a
+                    # conflict, or a result that does not build, is what "stale" means
+                    rc, o = sh(["git", "apply", "--3way", patch], "/repo")
+                    rc2, st = sh("git status --porcelain --untracked-files=no", "/repo")
+                    if rc != 0 or any(l[:2] in ("UU", "AA", "DU", "UD") for l in st.splitlines()):
+                        tally["stale"] += 1
+                        print(f"stale        {c} {f['property']} (reverse patch no longer applies, three-way merge conflicts)")
+                        continue
+                    rc, o = sh("cargo check -q --offline -p darling_core 2>&1 | tail -3", "/repo", {"CARGO_TARGET_DIR": "/var/tmp/mutsweep-target", "RUSTFLAGS": "-Awarnings"})
+                    if "error" in o:
+                        tally["stale"] += 1
+                        print(f"stale        {c} {f['property']} (three-way reversal does not build)")
+                        continue
+                else:
+                    sh(["git", "apply", patch], "/repo")
                 rc, o = sh(["/verif/check", f["property"]], "/verif", env)
                 vl = [l for l in o.splitlines() if l.startswith("VIOLATION")]
                 sigs = sorted({l.split("signature=")[1].split(" ::")[0] for l in vl if "signature=" in l})
             finally:
-                sh("git checkout -- .", "/repo")
+                sh("git reset -q --hard HEAD", "/repo")
         if rc == 1 and vl:
             tally["fires-again"] += 1
             same = f["signature"] in sigs
-            print(f"fires-again  {c} {f['property']} {'same signature' if same else 'signatures ' + str(sigs[:3])}")
+            print(f"fires-again  {c} {f['property']} {'same signature' if same else 'signatures ' + str(sigs[:3])}{' (three-way reversal)' if three_way else ''}")
         else:
             tally["SILENT"] += 1
             print(f"SILENT       {c} {f['property']} exit {rc}: {o.strip().splitlines()[-1][:160] if o.strip() else ''}")
